@@ -8,11 +8,19 @@
  *
  * One line per token:   <tag> <line> <col> <hex of text>
  * Sections are introduced by "IN" / "OUT" lines.
+ *
+ * With -Wl,--wrap=scan the same is done for scan(): the source lines as include.c
+ * built them ("SLINES":  <global line> <file line> <is main file> <indentation> <isSysCmd>
+ * <sysCmdHandled> <hex of text>) and the tokens scan() returns, with start and end
+ * positions ("STOKS":  <tag> <line> <col> <end line> <end col> <hex of text>).
  */
 #include "axlobs.h"
 #include "token.h"
 #include "srcpos.h"
 #include "linear.h"
+#include "srcline.h"
+#include "scan.h"
+#include "fname.h"
 
 extern TokenList __real_linearize(TokenList);
 
@@ -56,5 +64,64 @@ __wrap_linearize(TokenList tl)
 	if (f) c14Dump(f, "IN", tl);
 	tl = __real_linearize(tl);
 	if (f) { c14Dump(f, "OUT", tl); fclose(f); }
+	return tl;
+}
+
+extern TokenList __real_scan(SrcLineList);
+
+static const char *
+c14TokText(Token t)
+{
+	switch (tokTag(t)) {
+	case TK_Id: case TK_Blank:
+		return symString(t->val.sym);
+	case TK_Int: case TK_Float: case TK_String: case TK_PreDoc:
+	case TK_PostDoc: case TK_Comment: case TK_SysCmd: case TK_Error:
+		return t->val.str;
+	default:
+		return keyString(tokTag(t));
+	}
+}
+
+TokenList
+__wrap_scan(SrcLineList sll)
+{
+	char	*fn = getenv("ALDOR_VERIF_LINDUMP");
+	FILE	*f  = fn ? fopen(fn, "a") : 0;
+	TokenList tl, l;
+
+	if (f) {
+		SrcLineList	sl, last = sll;
+		FileName	mainfn = 0;
+		for (sl = sll; sl; sl = cdr(sl)) last = sl;
+		if (last && !sposIsSpecial(car(last)->spos)) mainfn = sposFile(car(last)->spos);
+		fprintf(f, "SLINES\n");
+		for (sl = sll; sl; sl = cdr(sl)) {
+			SrcLine	x = car(sl);
+			int	ismain = 0;
+			unsigned long fl = 0;
+			if (!sposIsSpecial(x->spos)) {
+				fl = (unsigned long) sposLine(x->spos);
+				ismain = mainfn && fnameEqual(sposFile(x->spos), mainfn);
+			}
+			fprintf(f, "%lu %lu %d %u %d %d ", (unsigned long) (x->spos >> 15), fl, ismain,
+				(unsigned) x->indentation, (int) x->isSysCmd, (int) x->sysCmdHandled);
+			c14Hex(f, x->text);
+			fputc('\n', f);
+		}
+	}
+	tl = __real_scan(sll);
+	if (f) {
+		fprintf(f, "STOKS\n");
+		for (l = tl; l; l = cdr(l)) {
+			Token t = car(l);
+			fprintf(f, "%d %lu %lu %lu %lu ", (int) tokTag(t),
+				(unsigned long) (t->pos >> 15), (unsigned long) sposChar(t->pos),
+				(unsigned long) (t->end >> 15), (unsigned long) sposChar(t->end));
+			c14Hex(f, c14TokText(t));
+			fputc('\n', f);
+		}
+		fclose(f);
+	}
 	return tl;
 }
